@@ -153,7 +153,7 @@ def check(plan, res):
     for seq, it, T, actor, kind, data in res.log:
         if kind == "rx":
             close()
-            ch, src, payload = data
+            ch, src, payload = data[:3]
             msgs, err = refdec.split_datagram(payload)
             if len(msgs) > 1:
                 probes["coalesced"] += 1
